@@ -401,8 +401,9 @@ class Gen:
             if self.o[c].role == "cloop" and self.depth > 0:
                 return
             self.next_l += 1
-            self.emit("listen_c %d %d" % (l, c))
-            self.listeners[l] = (c, True, False)
+            weak = r.random() < self.p.weak
+            self.emit("%s %d %d" % ("listen_cw" if weak else "listen_c", l, c))
+            self.listeners[l] = (c, True, weak)
         else:
             s = self.pick("S", "int")
             if s is None:
